@@ -459,6 +459,37 @@ def _table_ids(tbl):
     return tuple((k, id(v), type(v).__name__) for k, v in tbl.items())
 
 
+DEEP_STATE = False     # also the internal state of every Property object (isolated mode: one fork per case)
+
+
+def _state(v, depth=0):
+    """a value of a Property object's __dict__, by content for containers and scalars, by identity otherwise"""
+    if isinstance(v, (str, int, float, bool, type(None))):
+        return repr(v)
+    if depth < 3 and isinstance(v, (set, frozenset)):
+        return "set" + repr(sorted(_state(x, depth + 1) for x in v))
+    if depth < 3 and isinstance(v, (list, tuple)):
+        return "seq" + repr([_state(x, depth + 1) for x in v])
+    if depth < 3 and isinstance(v, dict):
+        return "map" + repr(sorted((repr(k), _state(x, depth + 1)) for k, x in v.items()))
+    if depth < 2 and isinstance(v, P.Property):
+        return "prop" + _prop_state(v, depth + 1)
+    return "%s@%d" % (type(v).__name__, id(v))
+
+
+def _prop_state(p, depth=0):
+    try:
+        return repr(sorted((k, _state(v, depth)) for k, v in vars(p).items()))
+    except Exception as e:  # noqa: BLE001
+        return "unreadable:" + type(e).__name__
+
+
+def _table_state(tbl):
+    if not DEEP_STATE or not isinstance(tbl, dict):
+        return None
+    return tuple(_prop_state(v) for v in tbl.values() if isinstance(v, P.Property))
+
+
 def registry_snapshot():
     """deep content of the registries: for every (version, category, name) the class object, the keys and
     Property objects of its _properties and _toplevel_properties tables (in order) and its _type /
@@ -474,7 +505,9 @@ def registry_snapshot():
                 rows.append((repr(k), id(v), _table_ids(getattr(v, "_properties", None)),
                              _table_ids(getattr(v, "_toplevel_properties", None)),
                              repr(d.get("_type")), repr(getattr(v, "_id_contributing_properties", None)),
-                             tuple(sorted(x for x in d if not x.startswith("__")))))
+                             tuple(sorted(x for x in d if not x.startswith("__"))),
+                             _table_state(getattr(v, "_properties", None)),
+                             _table_state(getattr(v, "_toplevel_properties", None))))
             snap.append((ver, cat, tuple(rows)))
     return hash(tuple(snap))
 
@@ -581,6 +614,15 @@ def materialise(case):
 
 def run_case(case):
     global CLASSES
+    if case.get("op") == "history":
+        # `then` after `first` in this process, against `then` alone in a pristine forked child
+        alone = run_isolated(case["then"])      # forked BEFORE anything ran here: the pristine answer
+        first = run_case(case["first"])
+        after = run_case(case["then"])
+        keys = ("out", "cls", "ret")
+        return {"out": "History", "first": {k: first.get(k) for k in keys}, "after": {k: after.get(k) for k in keys},
+                "alone": {k: alone.get(k) for k in keys},
+                "differs": any(after.get(k) != alone.get(k) for k in keys), "reg_same": True}
     op = case["op"]
     allow_custom = bool(case.get("allow_custom", False))
     interop = bool(case.get("interoperability", False))
@@ -730,6 +772,8 @@ def main():
     if len(sys.argv) > 1 and sys.argv[1] == "custom":
         register_custom()
         isolate = True      # every case is observed from the same registered state (forked child per case)
+        global DEEP_STATE
+        DEEP_STATE = True
     sys.setrecursionlimit(1000)
     for line in sys.stdin:
         line = line.strip()
